@@ -17,7 +17,8 @@ RULE = ("fault enumeration: for every scenario (operation {create, replace, dele
         "metadata back end {.xandikos file, git config} x prior contents {empty, 1, 4 members}) a recording pass counts the file-system mutations the operation performs below "
         "the store (Python audit events: open for writing, rename, remove, mkdir, rmdir, chmod, utime, ...); then the operation is re-run on a fresh copy of the pre-state once "
         "per mutation k with os._exit(137) immediately before mutation k (user-space buffers are lost exactly as with SIGKILL), plus torn variants in which every file that was "
-        "open for writing at that instant (read from /proc/self/fd) is cut to zero and to half of its final content; each crash state is re-opened by a fresh store object: all "
+        "open for writing at that instant (read from /proc/self/fd) is cut to zero and to half of its final content, plus once per mutation k with the process killed at the first "
+        "trace event of the calling frame after mutation k returned (before any unhooked write / flush / close that follows it); each crash state is re-opened by a fresh store object: all "
         "members must read and parse, the target must be old or new, everything else unchanged, `git fsck --connectivity-only` and `git rev-list --objects --all` must succeed; "
         "thorough adds SIGKILL at random instants of a loop of acknowledged writes; distinct = distinct (op, store, meta, prior, crash index, variant) points")
 
@@ -124,7 +125,7 @@ def open_write_fds(under):
     return out
 
 
-def child_run(backend, path, op, bodies, crash_at, record_file):
+def child_run(backend, path, op, bodies, crash_at, record_file, after=False):
     """fork; in the child install the agent and run the operation.
     Returns (exit status, record or None)."""
     pid = os.fork()
@@ -134,6 +135,7 @@ def child_run(backend, path, op, bodies, crash_at, record_file):
             logging.disable(logging.CRITICAL)
             ag = A.Agent(log=None, crash_under=os.path.realpath(path), crash_at=crash_at)
             ag.record_mut = crash_at is None
+            ag.crash_after = after
             openfiles = []
             if crash_at is None:
                 orig = ag.hook
@@ -247,14 +249,18 @@ def run_scenario(sc, res, rng, base, env):
             append = (isinstance(mode, str) and "a" in mode) or (isinstance(flags, int) and bool(flags & os.O_APPEND))
         if open_rel:
             variants += ["open-files-empty", "open-files-half"]
+        if k <= n:
+            # killed right after the k-th mutation returned: differs from "before mutation k+1"
+            # by what the program does in between without a file-system event (write, flush, close)
+            variants.append("killed-right-after")
         for variant in variants:
             common.rmtree(work)
             shutil.copytree(pre, work, symlinks=True)
-            code = child_run(backend, work, op, bodies, k, None)
+            code = child_run(backend, work, op, bodies, k, None, after=(variant == "killed-right-after"))
             if k <= n and code != 137:
                 res.inconclusive.append(f"{tag}: crash point {k}/{n} did not crash (exit {code})")
                 break
-            if variant != "as-is":
+            if variant in ("open-files-empty", "open-files-half"):
                 for rel in open_rel:
                     p = os.path.join(work, rel)
                     if not os.path.isfile(p):
@@ -285,6 +291,7 @@ def run_scenario(sc, res, rng, base, env):
                             f.write(fin[:len(fin) // 2])
             res.evaluations += 1
             res.count("crash_points")
+            res.count("crash_points:" + variant)
             res.seen(tag, prior, k, variant)
             ev = rec["events"][k - 1] if k - 1 < len(rec["events"]) else ["-", "after-last"]
             where = f"before mutation {k}/{n} ({ev[0]} {os.path.relpath(ev[1], os.path.realpath(work)) if os.path.isabs(ev[1]) else ev[1]})"
@@ -499,7 +506,8 @@ def check(tier, seed, t0):
     results, failures = common.run_shards("vf.props.c04", shards, timeout_s=400 if tier == "quick" else 3000)
     merged = common.merge(results)
     c = merged["counters"]
-    guards = [("scenarios", c.get("scenarios", 0), int(len(scs) * 0.9)), ("crash points audited", c.get("crash_points", 0), 1500 if tier == "quick" else 2500),
+    guards = [("scenarios", c.get("scenarios", 0), int(len(scs) * 0.9)), ("crash points audited", c.get("crash_points", 0), 2000 if tier == "quick" else 3500),
+              ("crash points right after a mutation returned", c.get("crash_points:killed-right-after", 0), 500),
               ("crash states equal to the old state", c.get("state_old", 0), 300), ("crash states equal to the new state", c.get("state_new", 0), 80)]
     for backend in ("tree", "bare", "vdir"):
         for op in ("create", "replace", "delete"):
